@@ -151,7 +151,8 @@ def jobs(tier, seed):
     for gid in range(11):
         for wtm, squares in ((True, [SQ("e1"), extra_w]), (False, [SQ("e8"), extra_b])):
             for sq in squares:
-                js.append(make_job(gid, wtm, sq, 2400))
+                # pawn captures with 8 pawns take ~27 min per query; quick bounds the looped-over pawns by 4 (thorough: 8)
+                js.append(make_job(gid, wtm, sq, 2400, max_own=4 if gid == 0 else None))
     return js
 
 
